@@ -35,6 +35,7 @@ mod lexmath;
 mod stypes;
 mod linecol;
 mod readers;
+mod anynum;
 
 fn main() {
     let args: Vec<String> = std::env::args().collect();
@@ -61,6 +62,8 @@ fn main() {
             // number-alphabet strings for Number::from_str + accessors, typed targets, whole documents, verbatim text
             c06::run(&mut sink, thorough, seed);
             c06::exhaustive_number_alphabet(&mut sink, thorough);
+            c06::number_near_misses(&mut sink, thorough, seed);
+            anynum::run(&mut sink, thorough, seed);
             c01::run(&mut sink, prop, thorough, seed);
             #[cfg(feature = "ap")]
             c20::run(&mut sink, thorough, seed);
@@ -151,6 +154,7 @@ fn replay(sink: &mut common::Sink, toks: &[&str]) {
         "tstream" | "tstream3" | "tsfault" | "tspfx" => stypes::replay(sink, toks),
         "lc3" | "lcs" => linecol::replay(sink, toks),
         "rd" | "rs" => readers::replay(sink, toks),
+        "anynum" => anynum::replay(sink, toks),
         _ => eprintln!("cannot replay op {}", toks[0]),
     }
 }
